@@ -35,11 +35,15 @@ type pathDigest struct {
 func DigestPart(name string, mk func() (*Env, Driver), depthQuick, depthThorough, maxQuick int, exports []string) Part {
 	return Part{Name: "digest:" + name, Run: func(tier string, known []KnownFinding, deadline time.Time) PartReport {
 		baselineEnv()
-		depth, max := depthQuick, maxQuick
+		xprocCap = maxQuick
+		depth, max := depthQuick, capOf(tier)
 		if tier == "thorough" {
-			depth, max = depthThorough, maxQuick*10
+			depth = depthThorough
 		}
 		e, d := mk()
+		// replica 1 walks the siblings in reverse order: what a path leads to may not depend on which other
+		// paths this process executed before it (state kept outside the stores would make it so)
+		reverse := os.Getenv("VERIF_PROCESS_REPLICA") == "1"
 		var out []pathDigest
 		var rec func(s *State, path []string)
 		rec = func(s *State, path []string) {
@@ -64,7 +68,13 @@ func DigestPart(name string, mk func() (*Env, Driver), depthQuick, depthThorough
 			if len(path) >= depth {
 				return
 			}
-			for _, op := range d.Enabled(e, s) {
+			ops := d.Enabled(e, s)
+			if reverse {
+				for i, j := 0, len(ops)-1; i < j; i, j = i+1, j-1 {
+					ops[i], ops[j] = ops[j], ops[i]
+				}
+			}
+			for _, op := range ops {
 				if len(out) >= max {
 					return
 				}
@@ -76,6 +86,16 @@ func DigestPart(name string, mk func() (*Env, Driver), depthQuick, depthThorough
 		rec(d.Init(e), nil)
 		return PartReport{Name: "digest:" + name, Exhaustive: true, Bounds: map[string]interface{}{"digests": out, "depth": depth}}
 	}}
+}
+
+// xprocCap is set by DigestPart users (quick cap; thorough = 10x).
+var xprocCap = 1500
+
+func capOf(tier string) int {
+	if tier == "thorough" {
+		return xprocCap * 10
+	}
+	return xprocCap
 }
 
 func runDigestChild(property, name, tier string, k int) ([]pathDigest, string) {
@@ -124,23 +144,32 @@ func compareProcesses(property, name, tier string, n int) ([]Violation, int, str
 	}
 	for k := 1; k < n; k++ {
 		a, b := res[0], res[k]
-		for i := 0; i < len(a) || i < len(b); i++ {
-			if i >= len(a) || i >= len(b) || strings.Join(a[i].Path, "\x00") != strings.Join(b[i].Path, "\x00") {
-				var p []string
-				if i < len(a) {
-					p = a[i].Path
-				} else {
-					p = b[i].Path
+		byPath := map[string]pathDigest{}
+		for _, x := range b {
+			byPath[strings.Join(x.Path, "\x00")] = x
+		}
+		common := 0
+		for _, x := range a {
+			y, ok := byPath[strings.Join(x.Path, "\x00")]
+			if !ok {
+				continue // beyond the other replica's cap, or (see below) not offered there
+			}
+			common++
+			if x.Digest != y.Digest {
+				p := x.Path
+				how := "two operating-system processes"
+				if k == 1 {
+					how = "two operating-system processes that executed the other paths in a different order"
 				}
-				return []Violation{{Finding: F(fmt.Sprintf("%s/process-differs/%s/enabled-operations", property, name),
-					"the operations offered along path %v differ between two processes executing the same history (process 0 vs process %d)", p, k), Path: append([]string{"<cross-process>"}, p...)}}, len(a), ""
-			}
-			if a[i].Digest != b[i].Digest {
-				p := a[i].Path
 				return []Violation{{Finding: F(fmt.Sprintf("%s/process-differs/%s/%s", property, name, opKind(p[len(p)-1])),
-					"after the same history %v the application state / exported genesis differs between two operating-system processes (process 0: %s, process %d: %s): the result depends on something the process drew for itself, not on chain data",
-					p, a[i].Digest, k, b[i].Digest), Path: append([]string{"<cross-process>"}, p...)}}, len(a), ""
+					"after the same history %v the application state / exported genesis differs between %s (process 0: %s, process %d: %s): the result depends on something the process drew for itself or kept from earlier executions, not on chain data",
+					p, how, x.Digest, k, y.Digest), Path: append([]string{"<cross-process>"}, p...)}}, len(a), ""
 			}
+		}
+		// uncapped enumerations must offer exactly the same paths
+		if len(a) < capOf(tier) && len(b) < capOf(tier) && (common != len(a) || common != len(b)) {
+			return []Violation{{Finding: F(fmt.Sprintf("%s/process-differs/%s/enabled-operations", property, name),
+				"the sets of op paths offered differ between two processes executing the same histories (%d vs %d paths, %d in common; process 0 vs process %d)", len(a), len(b), common, k), Path: []string{"<cross-process>"}}}, len(a), ""
 		}
 	}
 	return nil, len(res[0]), ""
